@@ -296,7 +296,7 @@ def block_to(w, target):
 
 def plan_votes(rng, w, users):
     """crafted tallies: returns (list of (user, kind, energy), optional (z, delta) for the quorum boundary)"""
-    cls = rng.choice(["half", "half", "third", "third", "quorum", "quorum", "random", "random", "none", "single"])
+    cls = rng.choice(["half", "half", "third", "third", "veto", "quorum", "quorum", "quorum", "random", "random", "none", "single"])
     base = max(2, log_amount(rng, 10 ** 12))
     # keep the voters' weight above everything synced so far, so the quorum side is under control
     tcur = w.last["total"]
@@ -312,9 +312,9 @@ def plan_votes(rng, w, users):
         votes = [(us[0], 0, energy_for_power(rng, up)), (us[1], 1, energy_for_power(rng, d_))]
         if a_:
             votes.append((us[2], 3, energy_for_power(rng, a_)))
-    elif cls == "third":
+    elif cls in ("third", "veto"):
         v_ = base
-        delta = rng.choice([-1, 0, 0, 1, 2])
+        delta = rng.choice([-1, -1, 0, 0, 1, 2]) if cls == "third" else -rng.choice([1, 2, v_, 2 * v_ - 1])
         rest = max(1, 2 * v_ + delta)
         votes = [(us[0], 2, energy_for_power(rng, v_))]
         if rng.random() < 0.5 or rest < 2:
@@ -328,7 +328,7 @@ def plan_votes(rng, w, users):
         nv = rng.choice([1, 2, 3])
         es = [energy_for_power(rng, base + rng.randint(0, 5)) for _ in range(nv)]
         votes = [(us[i], 0 if i == 0 or rng.random() < 0.6 else rng.choice([1, 3]), es[i]) for i in range(nv)]
-        qplan = (us[nv], rng.choice([-1, 0, 0, 1, 1]))
+        qplan = (us[nv], rng.choice([-1, -1, 0, 0, 0, 1, 1]))
     elif cls == "random":
         for u in us[:rng.randint(1, 5)]:
             votes.append((u, rng.choice([0, 0, 1, 2, 3]), log_amount(rng, 10 ** rng.choice([2, 6, 12, 24]))))
@@ -362,6 +362,14 @@ def plan_scenario(rng, w):
     nact = rng.choice([0, 0, 1, 2, 4])
     gas = rng.choice([0, 1000, 10 ** 6, 149_999_999])
     add(lambda: ["Propose", proposer, 1, w.last["cfg"]["min_fee"], nact, gas])
+    # configuration changes while the proposal is live: it must keep the values it was created with
+    if rng.random() < 0.35:
+        for _ in range(rng.choice([1, 2])):
+            k = rng.choice(["ChangeWithdrawPct", "ChangeWithdrawPct", "ChangeQuorum", "ChangeDelay", "ChangePeriod"])
+            v = {"ChangeWithdrawPct": gen_wpct(rng), "ChangeQuorum": rng.choice([1000, 2500, 5999, rng.randint(1000, 5999)]),
+                 "ChangeDelay": rng.choice([1, 3, 50, rng.randint(1, 2000)]),
+                 "ChangePeriod": rng.choice([14400, 14401, 20000, rng.randint(14400, 30000)])}[k]
+            add(lambda k=k, v=v: [k, OWNER, v])
     path = rng.choice(["cancel", "vote", "vote", "vote", "vote", "vote"])
     someone = lambda: rng.choice(others)
     if path == "cancel":
@@ -380,12 +388,25 @@ def plan_scenario(rng, w):
     cls, votes, qplan = plan_votes(rng, w, users)
     w.scenario_class = cls
     # energies are put in place while the proposal is pending or active (before each vote at the latest)
-    early = rng.random() < 0.5
-    if early:
+    early = rng.random() < 0.5 or bool(qplan)
+    if early and not qplan:
         for (u, kind, e) in votes:
             add(lambda u=u, e=e: ["SetEnergy", u, e])
     if qplan:
         z, delta = qplan
+        exact = rng.random() < 0.75
+
+        def align():
+            # evaluated after the proposal exists: its minimum quorum is known
+            p = cur(w)
+            if p and exact and votes:
+                s0 = sum(e for (_, _, e) in votes)
+                u, kind, e = votes[-1]
+                votes[-1] = (u, kind, e + (-s0) % p["minq"])
+            return None
+        add(align)
+        for i in range(len(votes)):
+            add(lambda i=i: ["SetEnergy", votes[i][0], votes[i][2]])
 
         def set_z():
             p = cur(w)
@@ -417,6 +438,8 @@ def plan_scenario(rng, w):
             add(lambda: ["Withdraw", rng.choice([proposer, someone()]), w.cur_id])
         elif r < 0.3:
             add(lambda: ["Block", rng.choice([0, 1, 3, 100])])
+        elif r < 0.42 and not qplan:
+            add(lambda u=u: ["Sync", u])
     # around the end of voting
     if rng.random() < 0.5:
         add(lambda: block_to(w, cur(w)["start"] + cur(w)["delay"] + cur(w)["period"] - 1) if cur(w) else None)
